@@ -32,6 +32,7 @@ C_HAZARDS = [
     "Mod(a, 2)", "Mod(-a, 2)", "Mod(a, -2)", "Mod(-a, -b)", "Mod(a - 5, 3)", "Mod(a, b) * c", "floor(-a)", "floor(a / 2)", "floor(-7/2) + a", "abs(-a)", "abs(a - b - c)",
     "Conditional(Lt(a, 1), Conditional(Lt(b, 1), 1, 2), Conditional(Lt(c, 1), 3, 4))", "Conditional(And(Gt(a, 1), Lt(b, 1)), a, b)", "Conditional(Or(Gt(a, 1), Lt(b, 1), Eq(c, 2)), a, b)",
     "Conditional(Not(And(Gt(a, 1), Lt(b, 1))), a, b)", "Conditional(Gt(a, 1), 1, 0) + Conditional(Le(b, 1), 1, 0)", "pi * a", "t * a + time", "a ** 2", "a ** 3", "a ** -1", "a ** 0.5", "a ** b",
+    "abs(floor(a * 1e10)) * 1e-10", "abs(floor(-a * 4e9)) + b", "abs(floor(a) - 3) * c", "abs(Mod(floor(a * 1e12), 7)) + c",
     "123456789012345678901234567890 * 1e-30 * a", "4503599627370497 * a", "1e300 * 1e-300 * a", "2 ** 10 * a", "2 ** 62 * a", "2 ** 64 * a * 1e-19", "10 ** 10 * a", "3 ** 40 * a * 1e-19",
 ]
 
